@@ -53,8 +53,8 @@ if [ -n "${JUDGE:-}" ]; then
 else
   VERIF_REPO=$EV ./check.sh $ID $TIER > $OUT/check-$TIER.log 2>&1; RC=$?
 fi
-RES=MISSED; [ $RC -eq 1 ] && grep -q "^VIOLATION property=$ID" $OUT/check-$TIER.log && RES=DETECTED
+RES=MISSED; [ $RC -eq 1 ] && grep -aq "^VIOLATION property=$ID" $OUT/check-$TIER.log && RES=DETECTED
 [ $RC -eq 2 ] && RES=INCONCLUSIVE
-echo "{\"id\":\"$ID\",\"build\":\"$BUILD\",\"pinned_tests_exit\":$T1,\"demo_with_change\":\"$D1\",\"demo_without_change\":\"$D0\",\"check_tier\":\"$TIER\",\"check_exit\":$RC,\"check_result\":\"$RES\",\"violation_lines\":$(grep -c '^VIOLATION' $OUT/check-$TIER.log)}" > $OUT/verify-$TIER.json
+echo "{\"id\":\"$ID\",\"build\":\"$BUILD\",\"pinned_tests_exit\":$T1,\"demo_with_change\":\"$D1\",\"demo_without_change\":\"$D0\",\"check_tier\":\"$TIER\",\"check_exit\":$RC,\"check_result\":\"$RES\",\"violation_lines\":$(grep -ac "^VIOLATION" $OUT/check-$TIER.log)}" > $OUT/verify-$TIER.json
 cat $OUT/verify-$TIER.json
 git -C /repo worktree remove --force $EV
